@@ -162,6 +162,15 @@ class ShippedMonitor(C05Monitor):
             self.last_me = tree.metaepoch_count
             if self.x.desc["gsc"]["kind"] in BOUNDARY_KINDS:
                 self.x.w.log.hooks.append(self.on_call)
+        # the metaepoch in which a deme was created, as the harness saw it happen (not the deme's own started_at)
+        fs = self.__dict__.setdefault("first_seen", {})
+        if kind in ("start", "round_end", "consult", "boundary"):
+            ids = {d.id for _, d in tree.all_demes}
+            if kind == "round_end":
+                self.__dict__["before_round"] = ids  # (children of this round appear right after it, within the same metaepoch)
+            for i in ids:
+                if i not in fs:
+                    fs[i] = tree.metaepoch_count
         if kind in ("consult", "boundary"):
             self.on_consult_reference(tree)
         super().on(kind, tree, info)
@@ -202,7 +211,8 @@ class ShippedMonitor(C05Monitor):
                 if not tree.levels[lvl]:
                     return False
                 for d in tree.levels[lvl]:
-                    if d.is_active or tree.metaepoch_count <= d.started_at + d.metaepoch_count + n:
+                    born = self.__dict__.get("first_seen", {}).get(d.id, d.started_at)
+                    if d.is_active or tree.metaepoch_count <= born + d.metaepoch_count + n:
                         return False
             return True
         return None
@@ -329,6 +339,8 @@ def _shipped(tier, seed):
                     d["lsc"] = [{"kind": "metaepoch", "m": 2}] * len(eng)
                 if g["kind"] == "noactive":
                     d["lsc"] = [None] + [{"kind": "metaepoch", "m": 1}] * (len(eng) - 1)
+                    # with hibernation: a parent that slept for a while and sprouts again (its own iteration count lags behind the tree's)
+                    out.append(dict(d, hib=True, Mh=9, gsc={"kind": "noactive", "n": 2}, sprout={"kind": "simple", "L": 1}, lsc=[None] + [{"kind": "metaepoch", "m": 2}] * (len(eng) - 1)))
                 out.append(d)
     # every deme stops by its local condition long before the global metaepoch limit: run() still performs n metaepochs
     for eng in (("SEA", "DE"), ("DE", "SEA", "SHADE"), ("LHS",), ("GA", "CMAf")):
